@@ -137,7 +137,7 @@ def oracle(chk):
         chk_val("qs.Celerite", qs.Celerite(*(jnp.asarray(v) for v in (a, b, c, d))).evaluate(A1, A2),
                 np.exp(-c * tau) * (a * np.cos(d * tau) + b * np.sin(d * tau)), t1=t1, t2=t2, c=c, d=d)
         w = float(rng.uniform(0.5, 2))
-        for q in (0.5, float(rng.uniform(0.52, 4)), float(rng.uniform(0.05, 0.49)), 0.5 + 1.001e-3, 0.5 - 1.001e-3, 0.5 + 2.5e-3, 0.5 - 2.5e-3):
+        for q in (0.5, float(rng.uniform(0.52, 4)), float(rng.uniform(0.05, 0.49)), 0.5 + 1.001e-3, 0.5 - 1.001e-3, 0.5 + 2.5e-3, 0.5 - 2.5e-3, 0.55, 0.6, 0.68):
             if q == 0.5:
                 want = np.exp(-w * tau) * (1 + w * tau)
             elif q > 0.5:
@@ -148,6 +148,22 @@ def oracle(chk):
                 want = np.exp(-w * tau / (2 * q)) * (np.cosh(g * w * tau / (2 * q)) + np.sinh(g * w * tau / (2 * q)) / g)
             chk_val("qs.SHO", qs.SHO(jnp.asarray(w), jnp.asarray(q), jnp.asarray(sigma)).evaluate(A1, A2), sigma ** 2 * want,
                     t1=t1, t2=t2, omega=w, quality=q)
+        # very slow and very fast oscillators: the regime must be selected by Q alone, whatever the units of omega
+        if rep < 3:
+            for w_ in (1e-5, 2e-4, 3e3):
+                for q_ in (0.51, 0.49, 2.0, 0.2, 0.5):
+                    for c_ in (0.5, 2.0, 5.0):
+                        tau_ = c_ / w_
+                        if q_ == 0.5:
+                            want_ = np.exp(-w_ * tau_) * (1 + w_ * tau_)
+                        elif q_ > 0.5:
+                            g_ = np.sqrt(4 * q_ * q_ - 1)
+                            want_ = np.exp(-w_ * tau_ / (2 * q_)) * (np.cos(g_ * w_ * tau_ / (2 * q_)) + np.sin(g_ * w_ * tau_ / (2 * q_)) / g_)
+                        else:
+                            g_ = np.sqrt(1 - 4 * q_ * q_)
+                            want_ = np.exp(-w_ * tau_ / (2 * q_)) * (np.cosh(g_ * w_ * tau_ / (2 * q_)) + np.sinh(g_ * w_ * tau_ / (2 * q_)) / g_)
+                        chk_val("qs.SHO(extreme omega)", qs.SHO(jnp.asarray(w_), jnp.asarray(q_), jnp.asarray(sigma)).evaluate(jnp.asarray(0.0), jnp.asarray(tau_)),
+                                sigma ** 2 * want_, 1e-9, omega=w_, quality=q_, tau=tau_)
         for nm in ("Exp", "Matern32", "Matern52", "Cosine"):
             chk_val(f"qs.{nm}==dense", getattr(qs, nm)(jnp.asarray(scale)).evaluate(A1, A2),
                     getattr(kernels, nm)(jnp.asarray(scale)).evaluate(A1, A2), t1=t1, t2=t2, scale=scale)
